@@ -21,6 +21,7 @@ import (
 
 	"perkeep.org/pkg/auth"
 	"perkeep.org/pkg/blob"
+	"perkeep.org/pkg/blobserver"
 	"perkeep.org/pkg/client"
 
 	"verif/harness"
@@ -134,15 +135,22 @@ func (o *obs) bad(class, format string, args ...any) {
 	o.viol = append(o.viol, pv{class, fmt.Sprintf(format, args...)})
 }
 
+// c18FaultOp is the pseudo operation index of the call-count addressed faults
+// of a run over a simulated store (Fault{Seam, Method, K}: the K-th call of
+// Method on the store since the operations began).
+const c18FaultOp = 1 << 20
+
 type c18 struct {
-	rc    *harness.RunCtx
-	p     *harness.Plan
-	cfg   *C18Config
-	srv   *Server
-	pool  []*sim.TBlob
-	model *sim.Model
-	out   *harness.Outcome
-	base  time.Time
+	// faulty: the server stands on a simulated store with a fault plan
+	faulty bool
+	rc     *harness.RunCtx
+	p      *harness.Plan
+	cfg    *C18Config
+	srv    *Server
+	pool   []*sim.TBlob
+	model  *sim.Model
+	out    *harness.Outcome
+	base   time.Time
 
 	mu      sync.Mutex
 	reached map[string]int
@@ -897,8 +905,30 @@ func (s *c18) report(class, detail string, opIndex int) bool {
 
 // runGroup executes ops[i:j] concurrently and checks them. It reports whether
 // the run should stop.
+func (s *c18) firedTotal() int {
+	n := 0
+	if s.faulty {
+		for _, v := range s.rc.Env.FiredSnapshot() {
+			n += v
+		}
+	}
+	return n
+}
+
+// excusedUnderFault: ways in which an operation shows that it failed (an
+// enumerate handler has no other way to report a failing store than a body
+// that does not parse). Wrong bytes, untruthful items, misplaced
+// continuation cursors and incomplete answers that claim success are not
+// excused.
+var excusedUnderFault = map[string]bool{
+	"enum-bad-json": true, "stat-bad-json": true, "upload-bad-json": true,
+	"get-failed": true, "get-present-404": false, "head-bad-status": true, "range-body-error": true,
+	"get-no-content-length": true,
+}
+
 func (s *c18) runGroup(ops []Op, i, j int) bool {
 	group := ops[i:j]
+	firedBefore := s.firedTotal()
 	res := make([]*obs, len(group))
 	for k := range group {
 		k := k
@@ -967,6 +997,12 @@ func (s *c18) runGroup(ops []Op, i, j int) bool {
 			return true
 		}
 	}
+	// a fault fired in the store while the group ran: any of its operations
+	// may have failed; none may have returned a wrong or incomplete answer
+	faulted := s.firedTotal() != firedBefore
+	if faulted {
+		s.reach("group-with-a-store-fault")
+	}
 	// reads are judged against the map before the group, with the blobs being
 	// uploaded by the group's writes of unknown presence
 	pre := s.model
@@ -997,6 +1033,10 @@ func (s *c18) runGroup(ops []Op, i, j int) bool {
 			for ; seen < len(o.viol); seen++ {
 				v := o.viol[seen]
 				if strings.HasPrefix(v.class, "?") {
+					continue
+				}
+				if faulted && excusedUnderFault[v.class] {
+					s.reach("failed-under-store-fault:" + v.class)
 					continue
 				}
 				if s.report(v.class, op.String()+": "+v.detail, i+k) {
@@ -1031,7 +1071,7 @@ func (s *c18) runGroup(ops []Op, i, j int) bool {
 				}
 				continue
 			}
-			if vs := m.Check(mop, o.mres[x], false); len(vs) > 0 {
+			if vs := m.Check(mop, o.mres[x], faulted); len(vs) > 0 {
 				cl := classOf(vs[0])
 				if s.report(op.K+">"+cl, op.String()+": "+vs[0], i+k) {
 					return true
@@ -1059,7 +1099,7 @@ func (s *c18) runGroup(ops []Op, i, j int) bool {
 	// long-poll expectations
 	for k, o := range res {
 		op := group[k]
-		if op.Wait <= 0 || o.failed != nil || o.status == 400 {
+		if op.Wait <= 0 || o.failed != nil || o.status == 400 || faulted {
 			continue
 		}
 		capS := op.Wait
@@ -1224,7 +1264,7 @@ func (s *c18) runGroup(ops []Op, i, j int) bool {
 					return true
 				}
 			}
-			if vs := s.model.Check(mop, o.mres[x], false); len(vs) > 0 {
+			if vs := s.model.Check(mop, o.mres[x], faulted); len(vs) > 0 {
 				cl := classOf(vs[0])
 				if s.report(op.K+">"+cl, op.String()+": "+vs[0], i+k) {
 					return true
@@ -1279,6 +1319,27 @@ func execC18(rc *harness.RunCtx, p *harness.Plan) *harness.Outcome {
 				return out
 			}
 		}
+	}
+	if cfg.Server.Storage == "sim" {
+		// the server's blob storage is a simulated store carrying the run's
+		// fault plan (call-count addressed, like syncsim's); faults are off
+		// while the server starts and while the closing sweep runs
+		st := sim.NewStoreState("bs")
+		env := rc.Env
+		env.BeginOp(c18FaultOp)
+		for i := range env.Faults {
+			env.Faults[i].Op = c18FaultOp
+		}
+		env.FaultsOn = false
+		sim.SetSimStorageHook(func(name string) (blobserver.Storage, error) {
+			if name != "bs" {
+				return nil, fmt.Errorf("unknown simulated store %q", name)
+			}
+			return &sim.SimStore{Env: env, G: env.Gen, St: st}, nil
+		})
+		defer sim.SetSimStorageHook(nil)
+		s.faulty = true
+		s.reach("server-over-simulated-store")
 	}
 	// server start-up happens before the scheduler runs: its own goroutines
 	// belong to the bubble, its locks are not yet scheduling points
@@ -1371,6 +1432,9 @@ func execC18(rc *harness.RunCtx, p *harness.Plan) *harness.Outcome {
 		return out
 	}
 
+	if s.faulty {
+		rc.Env.FaultsOn = true
+	}
 	for i := 0; i < len(ops); {
 		j := i + 1
 		if ops[i].G > 0 {
@@ -1383,6 +1447,15 @@ func execC18(rc *harness.RunCtx, p *harness.Plan) *harness.Outcome {
 			return finish()
 		}
 		i = j
+	}
+	if s.faulty {
+		rc.Env.FaultsOn = false
+		for k, v := range rc.Env.Fired {
+			if out.Fired == nil {
+				out.Fired = map[string]int{}
+			}
+			out.Fired[k] += v
+		}
 	}
 
 	// closing sweep: complete paging, GET of every blob, one batch stat
